@@ -649,10 +649,10 @@ def judge(case, impl, model):
         he = hexp(exp)
         if fi[0] == 'RAISE':
             problem = (f'{name}: raises on arguments of the documented shape',
-                       f'{name} raised {fi[1]}; the docstring schema promises {he}')
+                       f'{name} raised {fi[1]}; the documented rule promises {he}')
         elif fi[0] == 'OK' and fi[1] != he:
             problem = (f'{name}: conclusion differs from the documented schema',
-                       f'{name} concluded {fi[1]}; the docstring schema instantiated at the arguments is {he}')
+                       f'{name} concluded {fi[1]}; the documented rule instantiated at the arguments gives {he}')
     return agree, problem
 
 
@@ -852,9 +852,11 @@ def run(tier, seed):
                 closure[n] = set()
                 for c_ in lib.by_name[n]['calls']:
                     closure[n] |= {c_} | callees(c_)
+                if n in MATCH_METHODS:
+                    closure[n].add('dynamic_inst')      # they instantiate a premise through the DSL primitive
             return closure[n]
 
-        for c, i, mo, prob in sorted(problems, key=lambda x: (lib.by_name[x[0]['py']['call']]['idx'], len(json.dumps(x[0]['py'])))):
+        for c, i, mo, prob in sorted(problems, key=lambda x: (lib.by_name[x[0]['py']['call']]['spec'] != 'primitive', lib.by_name[x[0]['py']['call']]['idx'], len(json.dumps(x[0]['py'])))):
             if prob[0] in [v[0] for v in R.violations] or prob[0] in [k_[0] for k_ in R.known_hit]:
                 continue
             if (inner_names(c['py']) | callees(c['py']['call'])) & blamed_methods:
